@@ -82,8 +82,8 @@ ASSUMPTIONS = [
     'header values are Latin-1 text without control characters other than TAB and without RFC 2047 "=?" words',
     'q-values written in exotic float() notations (exponent, underscores, inf/nan, > 15 digits) are outside the model; '
     'such cases are checked by the lenient oracle only',
-    'model mirrors the REPAIRED gzip tail (proposed fix C17-gzip-406); on a tree without that fix the check reports the '
-    'F18 violation',
+    'model mirrors the repaired code (fix commits 73c184c gzip 406, 7323e54 encode_string iterator); on a tree without '
+    'them the check reports F18 / F18d as violations',
     'response Content-Types with more than one "/" or more than one "+" (ValueError in the mime matching) are modelled '
     'as crash but kept out of the generated stream',
 ]
@@ -925,11 +925,6 @@ def gen_cs_case(rng):
         ct = rng.choice(['text/html', 'text/plain'])
     return {'t': 'cs', 'chunks': chunks, 'kind': kind, 'ac': ac, 'forced': forced, 'ct': ct,
             'text_only': rng.random() < 0.8, 'add_charset': rng.random() < 0.96, 'cl': rng.random() < 0.2}
-
-
-def in_known_cs(case):
-    """Cases inside a recorded known-finding class are kept out of the model comparison."""
-    return False
 
 
 # ----------------------------------------------------------------------------------------------
